@@ -1081,9 +1081,19 @@ fn run_c16(args: &Args) -> Report {
         }
         for _ in 0..k {
             let di = cr.below(ndocs);
-            let (ch, nd) = line_edit(&mut cr, &cur[di]);
-            cur[di] = nd;
-            steps.push((di, ch));
+            // one notification carries 1-3 content changes, each relative to the document as
+            // the previous one left it
+            let nch = if cr.chance(1, 3) { cr.range(2, 3) } else { 1 };
+            let mut chs = Vec::new();
+            for _ in 0..nch {
+                let (ch, nd) = line_edit(&mut cr, &cur[di]);
+                cur[di] = nd;
+                chs.push(ch);
+            }
+            if nch > 1 {
+                rep.count("race_notifications_with_several_changes", 1);
+            }
+            steps.push((di, Value::Array(chs)));
             texts.push(cur.clone());
             let mut rv = Vec::new();
             for _ in 0..cr.range(1, 16) {
@@ -1115,7 +1125,13 @@ fn run_c16(args: &Args) -> Report {
             if v > 0 {
                 let (di, ch) = &steps[v - 1];
                 version += 1;
-                refsrv.notify("textDocument/didChange", json!({"textDocument":{"uri":uris[*di],"version":version},"contentChanges":[ch]}));
+                // the reference server gets the same changes one notification each: same meaning,
+                // different code path than the batched form the raced server receives
+                for one in ch.as_array().unwrap() {
+                    refsrv.notify("textDocument/didChange", json!({"textDocument":{"uri":uris[*di],"version":version},"contentChanges":[one]}));
+                    version += 1;
+                }
+                version -= 1;
             }
             for (ti, t) in all_templates.iter().enumerate() {
                 let id = refsrv.request(t.method, t.params.clone());
@@ -1153,7 +1169,7 @@ fn run_c16(args: &Args) -> Report {
             if v > 0 {
                 let (di, ch) = &steps[v - 1];
                 version += 1;
-                bytes.extend(vh::lspclient::frame(&json!({"jsonrpc":"2.0","method":"textDocument/didChange","params":{"textDocument":{"uri":uris[*di],"version":version},"contentChanges":[ch]}})));
+                bytes.extend(vh::lspclient::frame(&json!({"jsonrpc":"2.0","method":"textDocument/didChange","params":{"textDocument":{"uri":uris[*di],"version":version},"contentChanges":ch}})));
             }
             for t in &reqs[v] {
                 let (id, m) = s.make_request(t.method, t.params.clone());
@@ -1506,6 +1522,9 @@ fn run_c17(args: &Args) -> Report {
             }
         }
         let free_item = (free.clone(), std::fs::read_to_string(&free).unwrap());
+        if order == 1 {
+            to_open.reverse();
+        }
         if let Some((tp, tt, _)) = &test_uses {
             // the test module is a document of the session too: first of all in one order, last otherwise
             if order == 3 {
@@ -1514,10 +1533,22 @@ fn run_c17(args: &Args) -> Report {
                 to_open.push((tp.clone(), tt.clone()));
             }
         }
+        // Opening the free-standing file re-assembles the package graph; in half of the trees
+        // it is therefore opened only AFTER the import queries, so that what they see is the
+        // graph as the project documents alone left it.
+        let free_early = order == 2 || cr.chance(1, 2);
+        rep.see("layouts", if free_early { "free-standing-file-opened-before-the-queries" } else { "free-standing-file-opened-after-the-queries" });
         match order {
-            3 => { to_open.push(free_item.clone()); }
-            0 => { to_open.push(free_item.clone()); }
-            1 => { to_open.reverse(); to_open.push(free_item.clone()); }
+            3 | 0 => {
+                if free_early {
+                    to_open.push(free_item.clone());
+                }
+            }
+            1 => {
+                if free_early {
+                    to_open.push(free_item.clone());
+                }
+            }
             _ => { to_open.insert(0, free_item.clone()); }
         }
         let mut version = 0;
@@ -1682,6 +1713,10 @@ fn run_c17(args: &Args) -> Report {
         }
         // free-standing file still gets answers
         let fu = file_uri(&free.display().to_string());
+        if !free_early {
+            version += 1;
+            s.notify("textDocument/didOpen", json!({"textDocument":{"uri":fu,"languageId":"gleam","version":version,"text":free_item.1}}));
+        }
         let id = s.request("textDocument/hover", json!({"textDocument":{"uri":fu},"position":{"line":2,"character":19}}));
         let hov = s.wait_response(id, Duration::from_secs(20));
         let id2 = s.request("glas/syntaxTree", json!({"textDocument":{"uri":fu}}));
